@@ -48,10 +48,18 @@ class CacheHooks(StdHooks):
             cp.tag = this_cell.name
             it.write(this_cell, cp, node)
             return None
-        if base == 'std::atomic_compare_exchange_weak' or base == 'std::atomic_compare_exchange_strong':
-            obj = it.deref(it.eval(args[0]), node)
-            exp = it.deref(it.eval(args[1]), node)
-            des = it.eval(args[2])
+        member_cas = name.startswith('std::atomic<') and name.split('>::')[-1] in ('compare_exchange_weak', 'compare_exchange_strong')
+        if base == 'std::atomic_compare_exchange_weak' or base == 'std::atomic_compare_exchange_strong' or member_cas:
+            if member_cas:
+                obj = this_cell
+                exp = it.lval(args[0])
+                des = it.eval(args[1])
+            else:
+                obj = it.deref(it.eval(args[0]), node)
+                exp = it.deref(it.eval(args[1]), node)
+                des = it.eval(args[2])
+            if isinstance(des, Cell):
+                des = des.value
             self.cas_count += 1
             if self.interfere is not None and self.cas_count == self.interfere_at:
                 f = self.interfere
@@ -244,25 +252,35 @@ def explore_sequences(cache, rep, label, prefix_fills, length, where, typestate=
     return n, True
 
 
+def is_cas(c):
+    callee = c.get('callee') or ''
+    if c.get('k') == 'CallExpr' and callee.startswith('std::atomic_compare_exchange'):
+        return True
+    return c.get('k') == 'CXXMemberCallExpr' and callee.startswith('std::atomic<') and callee.split('>::')[-1] in ('compare_exchange_weak', 'compare_exchange_strong')
+
+
 def cas_shape(cache, rep):
-    """syntactic: inside every do-while retried on compare_exchange, each assignment whose right side mentions the observed
+    """syntactic: inside every loop retried on compare_exchange (free-function or member form), each assignment whose right side mentions the observed
     head (`orig`) — version, successor index, node->next — is inside the loop body"""
     unit = cache.unit
     n = 0
     for nm in ('pop', 'push'):
         f = cache.f[nm]
-        loops = [x for x in walk(f['body']) if x.get('k') == 'DoStmt' and any((c.get('callee') or '').startswith('std::atomic_compare_exchange') for c in walk(x.get('cond')))]
+        loops = [x for x in walk(f['body']) if x.get('k') in ('DoStmt', 'WhileStmt', 'ForStmt') and any(is_cas(c) for c in walk(x))]
         if not loops:
             raise AnalysisBroken('no compare-exchange retry loop in %s' % f['name'])
         n += 1
-        loop = loops[0]
+        loop = loops[-1]  # innermost loop containing the exchange (pre-order walk: the last one found)
         # the expected-value variable of the CAS
-        cas = [c for c in walk(loop['cond']) if (c.get('callee') or '').startswith('std::atomic_compare_exchange')][0]
+        cas = [c for c in walk(loop) if is_cas(c)][0]
+        exp_arg = cas['args'][0] if cas.get('k') == 'CXXMemberCallExpr' else cas['args'][1]
         exp_var = None
-        for x in walk(cas['args'][1]):
+        for x in walk(exp_arg):
             if x.get('k') == 'DeclRefExpr':
                 exp_var = x['id']
-        inside = set(id(x) for x in walk(loop['body']))
+        if exp_var is None:
+            raise AnalysisBroken('expected-value argument of the compare-exchange in %s is not a variable' % f['name'])
+        inside = set(id(x) for x in walk(loop))
         bad = None
         bumped = False
         for x in walk(f['body']):
